@@ -82,6 +82,10 @@ class C24(Check):
         r = self.rng
         out = []
         n = 60 if self.tier == "quick" else 1200
+        # every malformed kind on a small valid program, on every run
+        base = [(1, [("R", [("i", "b"), ("i", "u")]), ("RW", [("i", "u"), ("o", "b")])])]
+        for mal in ("syntax", "paren", "unbound", "unbound-guard", "unbound-arg", "unbound-then", "unbound-else"):
+            out.append(J.case_text(normalise(base), mal))
         for i in range(n):
             kind = r.below(10)
             mal = None
@@ -97,7 +101,9 @@ class C24(Check):
                 prog.append((0, [self.rand_flow(r, True)]))
             elif kind == 7:
                 prog = [(r.range(0, 2), [self.rand_flow(r, False) for _ in range(r.range(1, 4))])]
-                mal = r.pick(["syntax", "paren", "unbound"])
+                mal = r.pick(["syntax", "paren", "unbound", "unbound-guard", "unbound-arg", "unbound-then", "unbound-else"])
+                # the unbound-* kinds add one control flow to the first class: keep it within the flow limit
+                prog[0] = (prog[0][0], prog[0][1][:18])
             else:
                 prog = [(r.range(0, 5), [self.rand_flow(r, r.chance(1, 3)) for _ in range(r.range(1, 4))])
                         for _ in range(r.range(1, 3))]
@@ -145,9 +151,14 @@ class C24(Check):
             r = subprocess.run([self.ptgpp, "--noline", "-i", "t.jdf", "-o", "t", "-f", "t", "--"] + inc,
                                cwd=d, capture_output=True, text=True, timeout=120)
         except subprocess.TimeoutExpired:
-            return "accept=0 overflow=0 det=1 <timeout>"
+            return "accept=0 overflow=0 det=1 undiag=0 <timeout>"
         acc = 1 if r.returncode == 0 else 0
         over = 0
+        # a rejection must come with a diagnostic of the compiler itself (or the "#error Too many ..." guard it writes
+        # into the generated C): C that merely fails to compile without any such diagnostic is not a rejection
+        own = [l for l in r.stderr.splitlines() if l.startswith(("Fatal Error", "parse error", "Error"))]
+        limit_guard = "#error Too many" in r.stderr
+        self_undiag = 1 if (not acc and not own and not limit_guard) else 0
         if acc:
             # gcc reports every initializer element that does not fit its array; the NULL terminator of an
             # array filled exactly to its limit is benign, any other element is a lost runtime entry
@@ -174,7 +185,7 @@ class C24(Check):
         if outs[0] != outs[1]:
             det = 0
         shutil.rmtree(d, ignore_errors=True)
-        return "accept=%d overflow=%d det=%d" % (acc, over, det)
+        return "accept=%d overflow=%d det=%d undiag=%d" % (acc, over, det, self_undiag)
 
     def run_impl(self, casefile, n):
         cases = [l.rstrip("\n") for l in open(casefile) if l.strip() and not l.startswith("#")]
@@ -187,10 +198,13 @@ class C24(Check):
 
     # ---- property on the implementation's observation ----------------------
     def oracle(self, case, obs):
-        m = re.match(r"accept=(\d) overflow=(\d+) det=(\d)", obs)
+        m = re.match(r"accept=(\d) overflow=(\d+) det=(\d) undiag=(\d)", obs)
         if not m:
             return "unparsable observation " + obs
-        acc, over, det = int(m.group(1)), int(m.group(2)), int(m.group(3))
+        acc, over, det, undiag = int(m.group(1)), int(m.group(2)), int(m.group(3)), int(m.group(4))
+        if undiag:
+            return ("parsec-ptgpp generated C that does not compile without diagnosing the input itself "
+                    "(no Fatal/parse error of its own, no limit guard): not a rejection with a diagnostic")
         if det == 0:
             return "two runs of parsec-ptgpp on the same input produced different output"
         if acc and over:
@@ -200,6 +214,8 @@ class C24(Check):
     def signature(self, case, obs):
         if "det=0" in obs:
             return "nondeterministic"
+        if "undiag=1" in obs:
+            return "undiagnosed-" + (case.split("|")[0].strip())
         mal, m = self.counts(case)
         worst = sorted(((v - LIM[k], k) for (k, v) in m), reverse=True)[0]
         return "overflow-%s" % worst[1]
